@@ -79,8 +79,18 @@ def _fuse(t: T) -> T:
     return t
 
 
+def _flatten_comp(t: T) -> T:
+    """[y for xs in S for y in xs]  is  list(chain.from_iterable(S))"""
+    if t.op == "comp" and t.a[0] in ("list", "gen") and len(t.a[2]) == 2:
+        (e1, s1, c1), (e2, s2, c2) = t.a[2]
+        if not c1 and not c2 and s2 == e1 and t.a[1] == e2:
+            flat = T("call", (CHAIN, (s1,), ()))
+            return T("call", (LIST, (flat,), ())) if t.a[0] == "list" else flat
+    return t
+
+
 def fuse_comps(t: T) -> T:
-    return rewrite(t, _fuse)
+    return rewrite(rewrite(t, _flatten_comp), _fuse)
 
 
 CHAIN = T("global", ("itertools.chain.from_iterable",))
@@ -191,6 +201,8 @@ def _consumed(t: T) -> T:
         return t
     if whole and t.a[1]:
         first = _as_list(t.a[1][0])
+        if f == LIST and len(t.a[1]) == 1 and not t.a[2] and first.op == "comp" and first.a[0] == "list":
+            return first                    # list(<the items of a comprehension>) is the list comprehension
         if first is not t.a[1][0]:
             return T("call", (f, (first,) + tuple(t.a[1][1:]), t.a[2]))
     return t
